@@ -20,7 +20,7 @@ func init() {
 			"glow.Verify(equipment[id].PublicKey, report.SigningBytes(), report.Signature) for the very report value that is passed on; PRED the dominating guards are equivalent to -432 <= ts - now <= 432 evaluated without wrap-around for every 32-bit ts and now " +
 			"(compared cell by cell, including the uint32 extremes) and to PowerOutput not in {0,1}; the storage-window guards of the integrator are equivalent to offset <= ts < offset+4032; PURE the handler has no write effect on server state and no file write outside the integrator call " +
 			"(reject paths leave every observable unchanged); the listener hands over only datagrams of exactly 80 bytes read into an 80-byte buffer; the parser decodes ShortID/Timeslot/PowerOutput/Signature from bytes 0:4, 4:8, 8:16, 16:80 little-endian. " +
-			"NOT decided: cryptographic strength of secp256k1/Keccak (trusted); 'every observable exactly as it was' is decided as 'no write effect on reject paths', not by observing endpoints; signing-bytes layout is C15's.",
+			"COVER EquipmentReport.SigningBytes writes every field of the report except Signature at its full width (a field that is missing or narrowed could be altered under a valid signature). NOT decided: cryptographic strength of secp256k1/Keccak (trusted); 'every observable exactly as it was' is decided as 'no write effect on reject paths', not by observing endpoints; signing-bytes layout is C15's.",
 		Assumptions: append([]string{"glow.Verify(key, data, sig) is true only for a signature by key over data (secp256k1 + Keccak256, trusted)", "glow.CurrentTimeslot() < 2^31"}, baseAssumptions...),
 		Run:         runC01,
 	})
@@ -152,7 +152,7 @@ func runC01(c *an.Ctx) {
 	}
 	signingCoverage(c, "COVER", "glow", "EquipmentReport", "Signature")
 	c.Count("WHO-MAY", nw)
-	c.Floor("WHO-MAY", 6)
+	c.Floor("WHO-MAY", 2)
 
 	// ---- call sites of the integrator ----
 	sites := p.CallSites(integ)
